@@ -71,6 +71,27 @@ func (r *replayer) build(dir string) (string, string) {
 	if h == nil {
 		t.Fatal("unknown harness")
 	}
+	if rs := os.Getenv("VERIFND_RANDOM"); rs != "" {
+		// random sampling: confirm that a marker is never reached
+		var seed int64
+		fmt.Sscan(rs, &seed)
+		seen := map[string]bool{}
+		for i := 0; i < 4000; i++ {
+			verifnd.SetRandom(seed + int64(i))
+			func() {
+				defer func() { recover() }()
+				h()
+			}()
+			for _, r := range verifnd.Reached {
+				if !seen[r] {
+					seen[r] = true
+					fmt.Printf("VERIFND-REACHED %s\n", r)
+				}
+			}
+		}
+		fmt.Println("VERIFND-SAMPLED")
+		return
+	}
 	verifnd.Reset()
 	done := make(chan struct{})
 	go func() {
@@ -118,11 +139,29 @@ func (r *replayer) run(rr *replayRec, path string) (bool, string) {
 	if bin == "" {
 		return false, errs
 	}
+	// code under test may use real randomness natively (crypto/rand, math/rand): a
+	// counterexample that depends on such a draw reproduces only on some runs
+	attempts := 6
+	if rr.Kind == "unreachable" || rr.Kind == "stall" {
+		attempts = 1
+	}
+	var ok bool
+	var out string
+	for a := 0; a < attempts && !ok; a++ {
+		ok, out = r.runOnce(rr, path, bin)
+	}
+	return ok, out
+}
+
+func (r *replayer) runOnce(rr *replayRec, path, bin string) (bool, string) {
 	ctx, cancel := context.WithTimeout(context.Background(), 60*time.Second)
 	defer cancel()
 	cmd := exec.CommandContext(ctx, bin, "-test.run", "^TestVerifReplay$", "-test.count=1", "-test.timeout=30s")
 	cmd.Dir = filepath.Join(r.m.dir, rr.PkgDir)
 	cmd.Env = append(os.Environ(), "VERIFND_REPLAY="+path, "VERIFND_HARNESS="+rr.Harness, "VERIF_TIER="+currentTier)
+	if rr.Kind == "unreachable" {
+		cmd.Env = append(cmd.Env, "VERIFND_RANDOM=1")
+	}
 	var buf bytes.Buffer
 	cmd.Stdout = &buf
 	cmd.Stderr = &buf
@@ -134,6 +173,8 @@ func (r *replayer) run(rr *replayRec, path string) (bool, string) {
 		ok = strings.Contains(out, "VERIFND-ASSERT-FAIL "+rr.Obligation+"\n")
 	case "panic":
 		ok = strings.Contains(out, "VERIFND-PANIC") || strings.Contains(out, "\npanic: ") || strings.HasPrefix(out, "panic: ") || strings.Contains(out, "fatal error: ")
+	case "unreachable":
+		ok = strings.Contains(out, "VERIFND-SAMPLED") && !strings.Contains(out, "VERIFND-REACHED "+rr.Obligation+"\n")
 	case "stall":
 		ok = strings.Contains(out, "VERIFND-STALL") || strings.Contains(out, "all goroutines are asleep")
 	}
